@@ -208,6 +208,36 @@ def contested_case(rng):
                 kind="contested:" + style, abs_args=rng.random() < 0.3)
 
 
+def dup_pair_case(rng):
+    """A listing that names a contested pair individually — X.py + X.pyi, __init__.py + __init__.pyi, a module beside
+    its package, the same module under two non-package roots — in a random order, among uncontested files; half of
+    the time the pair is *not* contested (control)."""
+    kind = rng.choice(["py+pyi", "init-py+pyi", "module+package", "two-roots", "control"])
+    ents = [("pk/__init__.py", "f"), ("pk/b.py", "f")]
+    if rng.random() < 0.5:
+        ents.append(("pk/s/c.py", "f"))
+    if kind == "py+pyi":
+        d = rng.choice(["pk", "pk/s"])
+        pair = [d + "/a.py", d + "/a.pyi"]
+    elif kind == "init-py+pyi":
+        pair = ["pk/s/__init__.py", "pk/s/__init__.pyi"]
+    elif kind == "module+package":
+        pair = ["pk/a" + rng.choice([".py", ".pyi"]), "pk/a/__init__" + rng.choice([".py", ".pyi"])]
+    elif kind == "two-roots":
+        pair = ["r1/m" + rng.choice([".py", ".pyi"]), "r2/m" + rng.choice([".py", ".pyi"])]
+    else:
+        pair = ["pk/a.py", "pk/s/a.pyi"]
+    ents += [(p, "f") for p in pair]
+    if kind in ("py+pyi",) and pair[0].startswith("pk/s/") and rng.random() < 0.5:
+        ents.append(("pk/s/__init__.py", "f"))
+    ents = _consistent(sorted(set(ents)))
+    files = [p for p, k in ents if k == "f"]
+    rng.shuffle(files)
+    ns = rng.random() < 0.8
+    return Case(entries=ents + [("o", "d")], args=files, cwd="", mypy_path=[], ns=ns, epb=ns and rng.random() < 0.25,
+                kind="dup-pair:" + kind)
+
+
 def _consistent(ents):
     """Drop entries that would need a path to be both a file and a directory."""
     files = {p for p, k in ents if k == "f"}
